@@ -275,7 +275,7 @@ func runC02(r *Run) {
 			}
 		}
 		// strings
-		for _, x := range []string{"", "a", "foo", "x y", "é", "日本", "a\"b", "b\\c", "/usr/bin", "1", "true", "a\nb", "\x00", "\xff"} {
+		for _, x := range []string{"", "a", "foo", "x y", "é", "日本", "a\"b", "b\\c", "/usr/bin", "1", "true", "a\nb", "\x00", "\xff", "/a~1b", "/x~0y", "/a/b", "/~1"} {
 			for _, y := range []string{x, x + "a", "A" + x} {
 				for _, sp := range literalStyles(y) {
 					for _, w := range append(wrap("string", x), struct {
@@ -846,8 +846,44 @@ func c07BoundVariables(r *Run) {
 	}
 }
 
+// c07Colliding: two different paths whose dotted / slashed renderings coincide, used in ONE expression; respelling the
+// first selector must not change the outcome.
+func c07Colliding(r *Run) {
+	d := map[string]interface{}{"labels": map[string]interface{}{"app.tier": 1, "app": map[string]interface{}{"tier": 2}, "a/b": 3, "a": map[string]interface{}{"b": 4}},
+		"pools": map[string]interface{}{"eu.west": []interface{}{1}, "eu": map[string]interface{}{"west": 5}}}
+	fams := []struct {
+		parts []string
+		tpl   string
+	}{
+		{[]string{"labels", "app.tier"}, "%s == 1 and labels.app.tier == 2"}, {[]string{"labels", "app.tier"}, "labels.app.tier == 2 and %s == 1"},
+		{[]string{"labels", "a/b"}, `%s == 3 and "/labels/a/b" == 4`}, {[]string{"labels", "a/b"}, `"/labels/a/b" == 4 and %s == 3`},
+		{[]string{"pools", "eu.west"}, "any %s as x { x == 1 } or pools.eu.west == 5"}, {[]string{"pools", "eu.west"}, "pools.eu.west == 5 and all %s as x { x == 1 }"},
+		{[]string{"labels", "app.tier"}, "all pools as k, _ { %s == 1 and labels.app.tier == 2 }"},
+	}
+	for _, f := range fams {
+		var first string
+		for k, sp := range spellings(f.parts) {
+			e := fmt.Sprintf(f.tpl, sp)
+			c := evalCase{expr: e, d: d, tag: "bexpr"}
+			if !c.parse() {
+				continue
+			}
+			o := c.obs()
+			r.Evaluations++
+			r.Seen("colliding|" + f.tpl + "|" + fmt.Sprint(k))
+			if k == 0 {
+				first = o
+			} else if o != first {
+				r.Violate("spelling-outcome", "colliding|"+f.tpl, c.desc(), "another spelling of the same path gives "+first+", this one "+o)
+			}
+			r.Model(c.cmd(), o, c.desc())
+		}
+	}
+}
+
 func runC07(r *Run) {
 	c07BoundVariables(r)
+	c07Colliding(r)
 	r.Rule = "paths taken from random data whose parts are expressible in at least two spellings (dotted, .digits, [\"...\"], [`...`], JSON Pointer with ~0/~1, mixed within one selector) x operator templates (match, quantified collection, inside a quantifier body) x data; predicate on the implementation: the parser yields the same Path for every spelling and Evaluate the same outcome; exact (case-sensitive, untrimmed) matching of parts against keys and field names; all spellings also compared with the model; distinct = (number of parts, spelling set, template, outcome)"
 	n := 1200
 	if r.Tier == "thorough" {
@@ -1159,6 +1195,37 @@ func runC08(r *Run) {
 			}
 		}
 	}
+	// an embedded struct that is itself tagged "-": its fields must not be reachable under their promoted names either
+	{
+		ea := S8{Name: "n", Creds: Creds{Token: "h1", Level: 1}, Accounts: []S8acc{{ID: 1, Creds: Creds{Token: "h1"}}, {ID: 2}}, ByName: map[string]S8acc{"k": {ID: 1, Creds: Creds{Token: "h2"}}}}
+		eb := S8{Name: "n", Creds: Creds{Token: "", Level: 0}, Accounts: []S8acc{{ID: 1}, {ID: 2}}, ByName: map[string]S8acc{"k": {ID: 1}}}
+		for _, e := range []string{"Token == h1", "Token is empty", "Level == 1", "Creds.Token == h1", "Accounts.0.Token == h1", "ByName.k.Token == h2", "any Accounts as acc { acc.Token == h1 }",
+			"all ByName as _, v { v.Token is empty }", "h1 in Token", "Token matches `h`", "any Accounts as acc { acc.Token is not empty or acc.ID == 7 }"} {
+			for _, unk := range []bool{false, true} {
+				c1 := evalCase{expr: e, d: ea, tag: "bexpr", unkSet: unk, unk: "h1"}
+				if !c1.parse() {
+					continue
+				}
+				c2 := c1
+				c2.d = eb
+				o1, o2 := c1.obs(), c2.obs()
+				r.Evaluations += 2
+				r.Seen("embedded|" + e + fmt.Sprint(unk))
+				if o1 != o2 {
+					m := c1.desc()
+					m["datum_b"] = describe(eb)
+					r.Violate("hidden-field-observable", "embedded|"+e, m, o1+" vs "+o2)
+				}
+				r.Model(c1.cmd(), o1, c1.desc())
+				r.Model(c2.cmd(), o2, c2.desc())
+			}
+		}
+		if flt, err := bexpr.CreateFilter("Token == h1 or Token is not empty"); err == nil {
+			if k1, k2 := filterKept(flt, []S8acc{{ID: 1, Creds: Creds{Token: "h1"}}, {ID: 2}}), filterKept(flt, []S8acc{{ID: 1}, {ID: 2}}); k1 != k2 {
+				r.Violate("hidden-field-changes-filter", "embedded-filter", map[string]interface{}{"expression": "Token == h1 or Token is not empty"}, k1+" vs "+k2)
+			}
+		}
+	}
 	// a hidden field's content is never the value a selector resolves to; a renamed field only under its tag
 	d := S5{Sec: "secret", priv: "secret", Ren: "r", SecS: S5b{Name: "secret"}}
 	for _, t := range []struct{ e, tag, want string }{
@@ -1237,7 +1304,8 @@ func runC14(r *Run) {
 	}
 	bodies := []string{"any m as _, v { v.x == 1 }", "all m as _, v { v.x == 1 }", "any m as k, v { v.x == 1 and k != zz }", "all m as k, v { v.x != 1 or k == a }", "any m as k { k == b }",
 		"any m as _, v { v == 5 }", "all m as _, v { v is not empty }", "any m as _, v { any v as _, w { w == 1 } }", "not any m as _, v { v.x == 2 }", "any m as _, v { v.x == 1 } or any m as _, v { v.x == 2 }",
-		"any o.m as _, v { v.x == 1 }", "all m as k, _ { k matches `^[a-d]$` }"}
+		"any o.m as _, v { v.x == 1 }", "all m as k, _ { k matches `^[a-d]$` }",
+		"any m as k { k == b or zz == 1 }", "all m as k, _ { k != b and zz == 1 }", "any m as k { k == c or m.a.x == 1 }", "all m as k { k != a or zz is empty }"}
 	elems := []interface{}{map[string]interface{}{"x": 1}, map[string]interface{}{"x": 2}, 5, "s", nil, map[string]interface{}{}, map[string]interface{}{"x": "1"}, []interface{}{1}, map[string]interface{}{"x": 1, "y": 2}}
 	keys := []string{"a", "b", "c", "d", "e", "f", "g", "h"}
 	oddKeys := []string{"k\xfe", "k\xff", "\xff", "\ufffd", "k\xc0", "a", "", "é", "e\u0301", "z"}
@@ -1285,6 +1353,33 @@ func runC14(r *Run) {
 			r.Violate("order-dependent-evaluate", e, c.desc(), fmt.Sprint(counts))
 		}
 		r.Model(c.cmd(), first, c.desc())
+		// membership in maps with interface keys of several numeric kinds and boundary literals
+		{
+			mi := map[interface{}]interface{}{uint64(math.MaxUint64): 1, int(1): 2, float32(1): 3, int8(5): 4, "s": 5, 1.5: 6}
+			dm := map[string]interface{}{"mi": mi, "lm": map[string]interface{}{"a": mi, "b": mi}}
+			for _, me := range []string{`"18446744073709551615" in mi`, `"1e39" in mi`, `"300" in mi`, `mi contains "1"`, `any lm as _, v { "18446744073709551615" in v }`} {
+				ev, err := bexpr.CreateEvaluator(me)
+				if err != nil {
+					continue
+				}
+				f0 := evalObs(ev, dm)
+				fc := map[string]int{f0: 1}
+				for k := 1; k < reps; k++ {
+					fc[evalObs(ev, dm)]++
+				}
+				r.Evaluations += reps
+				r.Seen("iface-keys|" + me + "|" + fmt.Sprint(i%3))
+				if len(fc) != 1 {
+					r.Violate("order-dependent-evaluate", me, map[string]interface{}{"expression": me, "datum": describe(dm)}, fmt.Sprint(fc))
+				}
+				if i < 3 {
+					c2 := evalCase{expr: me, d: dm, tag: "bexpr"}
+					if c2.parse() {
+						r.Model(c2.cmd(), f0, c2.desc())
+					}
+				}
+			}
+		}
 		// Filter over the map
 		fe := pick(rng, []string{"x == 1", "x != 1", "y == 2 or x == 1", "x is not empty"})
 		if flt, err := bexpr.CreateFilter(fe); err == nil {
